@@ -569,6 +569,7 @@ type vrfSrvSample struct {
 	avail, unsent int32
 	bodies        map[uint32]int // st.body.Len() of every stream the server still knows
 	known         map[uint32]bool
+	stUnsent      map[uint32]int32 // st.inflow.unsent of those streams
 	streams       int
 	inGoAway      bool
 }
@@ -583,9 +584,10 @@ func (h *vrfSrv) sample() (vrfSrvSample, bool) {
 	}
 	ch := make(chan vrfSrvSample, 1)
 	msg := func(sc *serverConn) {
-		v := vrfSrvSample{avail: sc.inflow.avail, unsent: sc.inflow.unsent, bodies: map[uint32]int{}, known: map[uint32]bool{}, streams: len(sc.streams), inGoAway: sc.inGoAway}
+		v := vrfSrvSample{avail: sc.inflow.avail, unsent: sc.inflow.unsent, bodies: map[uint32]int{}, known: map[uint32]bool{}, stUnsent: map[uint32]int32{}, streams: len(sc.streams), inGoAway: sc.inGoAway}
 		for id, st := range sc.streams {
 			v.known[id] = true
+			v.stUnsent[id] = st.inflow.unsent
 			if st.body != nil {
 				v.bodies[id] = st.body.Len()
 			}
@@ -1034,6 +1036,7 @@ type vrfCliSample struct {
 	avail, unsent int32
 	held          int64
 	streams       int
+	stUnsent      map[uint32]int32 // cs.inflow.unsent of the streams registered on the connection
 }
 
 func (h *vrfCli) sample() vrfCliSample {
@@ -1052,7 +1055,10 @@ func (h *vrfCli) sample() vrfCliSample {
 	for _, cs := range cc.streams {
 		h.known[cs] = true
 	}
-	v := vrfCliSample{avail: cc.inflow.avail, unsent: cc.inflow.unsent, streams: len(cc.streams)}
+	v := vrfCliSample{avail: cc.inflow.avail, unsent: cc.inflow.unsent, streams: len(cc.streams), stUnsent: map[uint32]int32{}}
+	for id, cs := range cc.streams {
+		v.stUnsent[id] = cs.inflow.unsent
+	}
 	for cs := range h.known {
 		if !appClosed[cs] {
 			v.held += int64(cs.bufPipe.Len())
